@@ -2,6 +2,8 @@
 program on a virtual clock and a simulated disk, compared call for call with a
 small reference runner, with crash / kill / I/O-error injection and restart on
 whatever the disk kept."""
+import functools
+import io
 import itertools
 import json
 import os
@@ -37,6 +39,8 @@ def scratch_cwd():
         import shutil
         pid = os.getpid()
         atexit.register(lambda: os.getpid() == pid and shutil.rmtree(_SCRATCH, ignore_errors=True))
+        from simkit import core as _core
+        _core.WORKER_EXIT_HOOKS.append(lambda: os.getpid() == pid and shutil.rmtree(_SCRATCH, ignore_errors=True))
     return _SCRATCH
 
 
@@ -141,7 +145,7 @@ class ScriptedRunner(SimulationRunner):
                 self.params.add(name, np.array(spec["values"]) if spec.get("array") else list(spec["values"]))
             if name not in (cfg.get("unpack_order") or sorted(cfg["unpacked"])):
                 self.params.set_unpack_parameter(name)
-        self.update_progress_function_style = None
+        self.update_progress_function_style = cfg.get("progress")       # None / 'text1' / 'text2' (printed to a redirected stdout)
         if cfg.get("results_name") is not None:
             self.set_results_filename(cfg["results_name"] + cfg.get("ext", ""))
         self.delete_partial_results_bool = bool(cfg.get("delete_partials", False))
@@ -562,6 +566,7 @@ class World:
             return None
 
         same = bool(inc.get("same_runner")) and self.runner is not None and self.runner_pname == pname
+        real_stdout = sys.stdout
         try:
             if line_mode:
                 sys.settrace(glob)
@@ -576,6 +581,9 @@ class World:
                     self.cur_rep_max = int(inc["set_rep_max"])
                 if inc.get("set_delete") is not None:
                     self.runner.delete_partial_results_bool = bool(inc["set_delete"])
+                if cfg.get("progress"):
+                    sys.stdout = io.StringIO()          # the progress bar of this style prints to the screen
+                    bump(self.probes, "progress_bar_style_" + cfg["progress"])
                 if inc["call"]["kind"] == "all":
                     self.runner.simulate()
                 elif inc["call"].get("as_str"):
@@ -583,6 +591,7 @@ class World:
                 else:
                     self.runner.simulate(inc["call"]["i"])
             finally:
+                sys.stdout = real_stdout
                 if line_mode:
                     sys.settrace(None)
         except SimCrash:
@@ -632,6 +641,10 @@ def _install(w):
         "res_os": R_mod.__dict__.get("os"), "par_open": P_mod.__dict__.get("open", None),
         "par_os": P_mod.__dict__.get("os", None), "cwd": os.getcwd(),
     }
+    saved["run_pb3"] = RUN_mod.__dict__.get("ProgressbarText3")
+    if saved["run_pb3"] is not None:
+        # the "Current Variation" banner has sys.stdout bound as a default argument at import time: give it a sink
+        RUN_mod.ProgressbarText3 = functools.partial(saved["run_pb3"], output=io.StringIO())
     RUN_mod.time = w.clock.read
     RUN_mod.os = w.osshim
     RUN_mod.open = w.disk.open
@@ -644,6 +657,8 @@ def _install(w):
 
 
 def _restore(saved):
+    if saved.get("run_pb3") is not None:
+        RUN_mod.ProgressbarText3 = saved["run_pb3"]
     RUN_mod.time = saved["run_time"]
     RUN_mod.os = saved["run_os"]
     for mod, key in ((RUN_mod, "run_open"), (R_mod, "res_open"), (P_mod, "par_open")):
